@@ -17,19 +17,31 @@ def _solve(job):
     import z3
     t0 = time.time()
     try:
-        s = z3.Solver()
-        s.set("rlimit", rlimit)
-        s.set("timeout", WALL_S * 1000)
-        s.from_string(text)
-        r = s.check()
-        res = str(r)
-        model = None
-        reason = ""
-        if r == z3.sat and want_model:
-            m = s.model()
-            model = {str(d): str(m[d]) for d in m.decls() if d.arity() == 0}
-        if r == z3.unknown:
+        # Attempt schedule: the first attempt decides almost everything; an `unknown` is retried with other
+        # (fixed, hence reproducible) random seeds / quantifier settings.  Any `unsat` is a proof; `sat` stops at once.
+        attempts = [({}, 1), ({"smt.random_seed": 7}, 1), ({"smt.random_seed": 23, "smt.mbqi": False}, 1),
+                    ({"smt.random_seed": 101, "smt.qi.eager_threshold": 100.0}, 2)]
+        res, model, reason = "unknown", None, ""
+        for n_att, (opts, mult) in enumerate(attempts):
+            s = z3.Solver()
+            s.set("rlimit", rlimit * mult)
+            s.set("timeout", WALL_S * 1000)
+            for k_, v_ in opts.items():
+                s.set(k_, v_)
+            s.from_string(text)
+            r = s.check()
+            res = str(r)
+            if r == z3.unsat:
+                reason = "" if n_att == 0 else "proved on attempt %d %r" % (n_att + 1, opts)
+                break
+            if r == z3.sat:
+                if want_model:
+                    m = s.model()
+                    model = {str(d): str(m[d]) for d in m.decls() if d.arity() == 0}
+                break
             reason = s.reason_unknown()
+            if rlimit <= 6_000_000:
+                break  # cheap checks (canaries, literally-false goals) are not retried
         return key, res, time.time() - t0, model, reason
     except Exception as e:  # solver crash: undecided, never a violation by itself
         return key, "error", time.time() - t0, None, repr(e)
